@@ -358,15 +358,19 @@ func runC47(c *eng.Ctx) {
 			w := ws[0]
 			// the counter test is the entry block's condition
 			iff, ok := fn.Blocks[0].Instrs[len(fn.Blocks[0].Instrs)-1].(*ssa.If)
-			okTest := false
+			okTest, inverted := false, false
 			if ok {
-				if b, ok := iff.Cond.(*ssa.BinOp); ok && b.Op == token.EQL && loadOf(b.X, "writeCount") && loadOf(b.Y, "checkInterval") {
-					okTest = true
+				if b, ok := iff.Cond.(*ssa.BinOp); ok && (b.Op == token.EQL || b.Op == token.NEQ) &&
+					(loadOf(b.X, "writeCount") && loadOf(b.Y, "checkInterval") || loadOf(b.Y, "writeCount") && loadOf(b.X, "checkInterval")) {
+					okTest, inverted = true, b.Op == token.NEQ
 				}
 			}
 			c.Check("R4", "counter-tested-before-every-write", fn.Pos(), okTest && w.Block() != fn.Blocks[0], "every write first compares the write counter with the check interval")
 			if okTest {
 				chk, other := fn.Blocks[0].Succs[0], fn.Blocks[0].Succs[1]
+				if inverted { // `if count != interval { count++ } else { check }`
+					chk, other = other, chk
+				}
 				// select in chk
 				var sel *ssa.Select
 				for _, in := range chk.Instrs {
